@@ -134,7 +134,38 @@ pub fn run(tier: &str) -> i32 {
             acc
         })
         .reduce(Acc::new, Acc::merge);
-    let acc = acc.merge(acc2);
+    // index segments of singular queries (comparison operands): `$[?@[i]==j]`, `$[?$[k][i]==j]`, `$[?@[i]==@[i]]`
+    let acc3 = idx
+        .par_iter()
+        .map(|i| {
+            let mut acc = Acc::new();
+            if i.abs() > MAX_INT {
+                return acc;
+            }
+            // one document holding every array length: [[], [0], [0,1], ...]
+            let doc = &all;
+            let dc = &all_dc;
+            let mut qs = vec![format!("$[?@[{}]==@[{}]]", i, i), format!("$[?@[{}]!=@[0]]", i), format!("$[?@[{}]>=0]", i), format!("$[?length(@)>0&&@[{}]==@[-1]]", i)];
+            for j in 0..=maxlen {
+                qs.push(format!("$[?@[{}]=={}]", i, j));
+                qs.push(format!("$[?{}==@[{}]]", j, i));
+            }
+            for k in 0..=maxlen.min(4) {
+                qs.push(format!("$[?$[{}][{}]==@[0]]", k, i));
+            }
+            for q in qs {
+                let ast = crate::model::parse::rfc_parse(&q).unwrap_or_else(|e| panic!("C11 query {} must be valid: {:?}", q, e)).0;
+                let o = crate::watch::guarded(|| json!({"query": q, "doc": doc}).to_string(), || check_case(&run, &mut acc, &q, &ast, dc, Mode::NodesAndPaths, "singular-query index"));
+                if let Outcome::Agree(n) = o {
+                    if n > 0 {
+                        acc.nontrivial += 1;
+                    }
+                }
+            }
+            acc
+        })
+        .reduce(Acc::new, Acc::merge);
+    let acc = acc.merge(acc2).merge(acc3);
     run.finish(
         acc,
         "one case = one (slice or index selector, array length, context) evaluated through query_with_path (and, at the root, through a programmatically built JpQuery); expected index sequence = RFC 9535 2.3.4.2.2 pseudo-code transcribed with 128-bit arithmetic; compared on node identity, order and path; non-trivial = at least one element is selected",
@@ -143,6 +174,6 @@ pub fn run(tier: &str) -> i32 {
             "termination: any single case exceeding a 20 s horizon is reported as a violation",
         ],
         true,
-        json!({"parameter_range": r, "max_array_length": maxlen, "contexts": ["root", "below name", "below wildcard", "descendant", "non-array"]}),
+        json!({"parameter_range": r, "max_array_length": maxlen, "contexts": ["root", "below name", "below wildcard", "descendant", "non-array", "index segment of a singular query in a comparison"]}),
     )
 }
